@@ -27,6 +27,7 @@ def run(ctx):
     ctx.each(r17c, ctx, repo, E)
     ctx.each(r17d, ctx, repo)
     ctx.each(r17e, ctx, repo)
+    ctx.each(r17f, ctx, repo)
 
 
 def draw_calls(fi):
@@ -324,3 +325,43 @@ def r17e(ctx, repo):
             ok = base is not None and len(rest) == 1 and rest[0][0] == 1 and ast.unparse(rest[0][1]) == base
             ctx.check(ok, "R17e", fi, s_, "`%s` reduces to the old value at sigma = 0" % norm(s_)[:50], "`%s` does not reduce to the previous value when sigma is 0 (what remains: %s): a sample drawn with zero uncertainty differs from its source" % (norm(s_)[:70], " ".join(("+" if sg > 0 else "-") + ast.unparse(t) for sg, t in rest) or "nothing"))
     ctx.require(n >= 5, "R17e: fewer perturbation stores (%d) in TimeSeries.sample / Covout.sample than confirmed (5)" % n)
+
+
+def r17f(ctx, repo):
+    ctx.rule("R17f", "sampling reaches every uncertain quantity: ParameterSet.sample calls par.sample(constant) for every parameter of the copy (all_pars ranges over pars, transfers and interactions); Parameter.sample replaces every population's series by ts.sample(constant); ProgramSet.sample calls sample on every program and every covout of the copy; Program.sample resamples each of its five series; each is unconditional")
+    def one_loop_call(fi, iter_txts, call_pred, what):
+        loops = [l for l in own_nodes(fi.node) if isinstance(l, ast.For) and ast.unparse(l.iter) in iter_txts]
+        ok = False
+        st = fi.node
+        if len(loops) == 1 and isinstance(loops[0].target, (ast.Name, ast.Tuple)):
+            calls = [s for s in loops[0].body if call_pred(s, loops[0])]
+            ok = len(calls) == 1 and not guards_of(calls[0]) and not guards_of(loops[0])
+            st = calls[0] if calls else loops[0]
+        ctx.check(ok, "R17f", fi, st, what, "%s: %s is not done unconditionally for every element of %s - quantities left out are never perturbed, so samples that should differ are identical there" % (fi.qualname, what, " / ".join(iter_txts)), stmt_text="reach:%s:%s" % (fi.qualname, iter_txts[0]))
+
+    fi = repo.func("parameters", "ParameterSet.sample")
+    const = fi.params[1]
+    one_loop_call(fi, ["new.all_pars()"], lambda s, l: isinstance(s, ast.Expr) and ast.unparse(s.value) == "%s.sample(%s)" % (ast.unparse(l.target), const), "par.sample(constant) for every parameter of the copy")
+    ap = repo.func("parameters", "ParameterSet.all_pars")
+    me = K.self_name(ap)
+    srcs = " ".join(ast.unparse(l.iter) for l in own_nodes(ap.node) if isinstance(l, ast.For))
+    ys = [y for y in own_nodes(ap.node) if isinstance(y, ast.Yield)]
+    ok = all(k in srcs for k in ("%s.pars.values()" % me, "%s.transfers.values()" % me, "%s.interactions.values()" % me)) and len(ys) >= 2 and all(not guards_of(enclosing_stmt(y)) for y in ys)
+    ctx.check(ok, "R17f", ap, ap.node, "all_pars yields parameters, transfers and interactions", "ParameterSet.all_pars does not (unconditionally) yield every parameter of pars, transfers and interactions: those left out are never sampled", stmt_text="all_pars")
+    fi = repo.func("parameters", "Parameter.sample")
+    me = K.self_name(fi)
+    const = fi.params[1]
+    one_loop_call(fi, ["%s.ts.items()" % me], lambda s, l: isinstance(s, ast.Assign) and isinstance(l.target, ast.Tuple) and ast.unparse(s.targets[0]) == "%s.ts[%s]" % (me, ast.unparse(l.target.elts[0])) and ast.unparse(s.value) == "%s.sample(%s)" % (ast.unparse(l.target.elts[1]), const), "ts.sample(constant) stored back for every population")
+    fi = repo.func("programs", "ProgramSet.sample")
+    const = fi.params[1]
+    one_loop_call(fi, ["new.programs.values()"], lambda s, l: isinstance(s, ast.Expr) and ast.unparse(s.value) == "%s.sample(%s)" % (ast.unparse(l.target), const), "prog.sample(constant) for every program of the copy")
+    one_loop_call(fi, ["new.covouts.values()"], lambda s, l: isinstance(s, ast.Expr) and ast.unparse(s.value) == "%s.sample()" % ast.unparse(l.target), "covout.sample() for every covout of the copy")
+    fi = repo.func("programs", "Program.sample")
+    me = K.self_name(fi)
+    const = fi.params[1]
+    got = set()
+    for s in fi.node.body:
+        if isinstance(s, ast.Assign) and isinstance(s.targets[0], ast.Attribute) and astq.is_name(s.targets[0].value, me) and ast.unparse(s.value) == "%s.%s.sample(%s)" % (me, s.targets[0].attr, const):
+            got.add(s.targets[0].attr)
+    want = {"spend_data", "unit_cost", "capacity_constraint", "saturation", "coverage"}
+    ctx.check(want <= got, "R17f", fi, fi.node, "every program series is resampled", "Program.sample does not resample %s" % sorted(want - got), stmt_text="program-series")
